@@ -18,10 +18,18 @@ def write_if_changed(path, text):
 
 def main():
     from extractors import ALL
-    for fn in ALL:
-        for name, text in fn(REPO):
-            write_if_changed(os.path.join(GEN, name), text)
-    return 0
+    only = sys.argv[1] if len(sys.argv) > 1 else None
+    rc = 0
+    for pid, fn in ALL:
+        if only and pid != only:
+            continue
+        try:
+            for name, text in fn(REPO):
+                write_if_changed(os.path.join(GEN, name), text)
+        except Exception as e:  # the tie to the source is broken for this property only
+            print(f"EXTRACT-FAILED {pid}: {e!r}")
+            rc = 1
+    return rc
 
 
 if __name__ == "__main__":
